@@ -34,3 +34,6 @@ def run(ctx):
     from . import common
     ctx.rule("C02.entry", "the x-space entry hands point, edge data, settings and table to the sampling routine unmodified")
     common.entry_forwards_inputs(ctx, ctx.roles, "C02.entry")
+    # the signature (and table) these formulas read are the ones the caller handed to build_sampler (restated from C05-b)
+    from .restate import restate_sampler_is_callers
+    restate_sampler_is_callers(ctx)
